@@ -84,9 +84,31 @@ def unruns(rs) -> bytes:
     return b"".join(bytes([c]) * n for c, n in rs)
 
 
+MAX_RUNS = 48
+
+
+def babs(b: bytes) -> dict:
+    """A byte string at the JSON boundary: raw list, or runs when it has few long runs."""
+    if len(b) > 128:
+        rs = runs(b)
+        if len(rs) <= MAX_RUNS:
+            return {"rle": rs}
+    return {"raw": list(b)}
+
+
+def unbabs(a: dict) -> bytes:
+    return bytes(a["raw"]) if "raw" in a else unruns(a["rle"])
+
+
+def blen(a: dict) -> int:
+    return len(a["raw"]) if "raw" in a else sum(n for _, n in a["rle"])
+
+
 def ablob(b: bytes) -> dict:
-    if len(b) > 256:
-        return {"rle": runs(b)}
+    if len(b) > 128:
+        rs = runs(b)
+        if len(rs) <= MAX_RUNS:
+            return {"rle": rs}
     return {"blob": list(b)}
 
 
